@@ -53,42 +53,460 @@ def Spells : List Hop → List Name → Prop
   | h :: hs, p :: l :: rest => PortSpelling h p ∧ l = linkText h.link ∧ Spells hs rest
   | _, _ => False
 
+
+/-! ### helper lemmas -/
+open PyStr
+
+theorem usint_ok (n : Nat) (h : n ≤ 255) : usint (n : Int) = .ok [UInt8.ofNat n] := by
+  have h1 : (0:Int) ≤ (n:Int) := Int.natCast_nonneg n
+  have h2 : (n:Int) ≤ 255 := by omega
+  simp [usint, packInt, PyVal.asIndex, IntK.lo, IntK.hi, IntK.signed, IntK.size, leBytes, ofSigned, h1, h2]
+  have : n % 256 = n := by omega
+  rw [this]
+
+theorem usint_err (n : Nat) (h : 255 < n) : usint (n : Int) = .error .data := by
+  have h2 : ¬ (n:Int) ≤ 255 := by omega
+  simp [usint, packInt, PyVal.asIndex, IntK.lo, IntK.hi, IntK.signed, IntK.size, h2]
+
+theorem nm_bp : nm "bp" = [98, 112] := by decide
+theorem lookup_bp : lookupName (nm "bp") Gen.portSegments = some 1 := by decide
+
+theorem decRev'_digit (n : Nat) : ∀ c ∈ decRev' n, isDigitC c = true := by
+  induction n using Nat.strongRecOn with
+  | _ n ih =>
+    intro c hc
+    rw [decRev'] at hc
+    split at hc
+    · simp at hc; subst hc; simp [isDigitC]; omega
+    · simp at hc
+      rcases hc with hc | hc
+      · subst hc; simp [isDigitC]; omega
+      · exact ih (n / 10) (by omega) c hc
+
+theorem decRev'_ne (n : Nat) : decRev' n ≠ [] := by
+  rw [decRev']; split <;> simp
+
+theorem decVal_rev (xs : List Nat) :
+    decVal xs.reverse = xs.foldr (fun c a => a * 10 + (c - 48)) 0 := by
+  simp [decVal, List.foldl_reverse]
+
+theorem decRev'_val (n : Nat) : (decRev' n).foldr (fun c a => a * 10 + (c - 48)) 0 = n := by
+  induction n using Nat.strongRecOn with
+  | _ n ih =>
+    rw [decRev']
+    split
+    · simp
+    · simp [ih (n / 10) (by omega)]; omega
+
+theorem decStr_digits (n : Nat) : ∀ c ∈ decStr n, isDigitC c = true := by
+  intro c hc
+  exact decRev'_digit n c (by simpa [decStr] using hc)
+
+theorem decStr_ne (n : Nat) : decStr n ≠ [] := by
+  simp [decStr, decRev'_ne]
+
+theorem decStr_isDigit (n : Nat) : isDigit (decStr n) = true := by
+  have h1 := decStr_ne n
+  have h2 := decStr_digits n
+  simp [isDigit, List.all_eq_true]
+  exact ⟨h1, h2⟩
+
+theorem decStr_val (n : Nat) : decVal (decStr n) = n := by
+  rw [decStr, decVal_rev, decRev'_val]
+
+/-- an error in one segment makes the whole segment list fail -/
+theorem encSegs_err (padded : Bool) (pre post : List Seg) (s : Seg) (e : Exn)
+    (h : encSeg padded s = .error e) : ∃ e', encSegs padded (pre ++ s :: post) = .error e' := by
+  induction pre with
+  | nil => exact ⟨e, by simp [encSegs, h, bind, Except.bind]⟩
+  | cons a pre ih =>
+    obtain ⟨e', he'⟩ := ih
+    cases ha : encSeg padded a with
+    | error e2 => exact ⟨e2, by simp [encSegs, ha, bind, Except.bind]⟩
+    | ok v => exact ⟨e', by simp [encSegs, ha, he', bind, Except.bind]⟩
+
+theorem encEpath_err (padded : Bool) (pre post : List Seg) (s : Seg) (e : Exn)
+    (h : encSeg padded s = .error e) (length padLen : Bool) :
+    encEpath padded (pre ++ s :: post) length padLen = .error .data := by
+  obtain ⟨e', he'⟩ := encSegs_err padded pre post s e h
+  simp [encEpath, he']
+
+
+/-- the link encoding alone decides failure: a bad link text fails for every port value -/
+theorem encPort_bad_link (p : PortVal) (s : Name)
+    (hs : (PyStr.isDigit s = true ∧ 255 < PyStr.decVal s) ∨ (PyStr.isDigit s = false ∧ parseIPv4 s = none)) :
+    encPort p (.str s) = .error .data := by
+  cases p with
+  | int i =>
+    rcases hs with ⟨h1, h2⟩ | ⟨h1, h2⟩
+    · simp [encPort, h1, usint_err _ h2]
+    · simp [encPort, h1, h2]
+  | name a =>
+    cases hl : lookupName a Gen.portSegments with
+    | none => simp [encPort, hl]
+    | some v =>
+      rcases hs with ⟨h1, h2⟩ | ⟨h1, h2⟩
+      · simp [encPort, hl, h1, usint_err _ h2]
+      · simp [encPort, hl, h1, h2]
+
+
+/-! ### splitting -/
+
+theorem splitOn_ne_nil (sep : Nat) (s : List Nat) : splitOn sep s ≠ [] := by
+  cases s with
+  | nil => simp [splitOn]
+  | cons c cs =>
+    rw [splitOn]
+    split
+    · simp
+    · split <;> simp
+
+theorem splitOn_notin (sep : Nat) (s : List Nat) (h : sep ∉ s) : splitOn sep s = [s] := by
+  induction s with
+  | nil => rfl
+  | cons c cs ih =>
+    have h1 : c ≠ sep := fun e => h (by simp [e])
+    have h2 : sep ∉ cs := fun e => h (by simp [e])
+    rw [splitOn, ih h2]
+    simp [h1]
+
+theorem splitOn_append (sep : Nat) (a b : List Nat) (h : sep ∉ a) :
+    splitOn sep (a ++ sep :: b) = a :: splitOn sep b := by
+  induction a with
+  | nil =>
+    simp only [List.nil_append]
+    rw [splitOn]
+    cases hb : splitOn sep b with
+    | nil => exact absurd hb (splitOn_ne_nil sep b)
+    | cons x t => simp
+  | cons c cs ih =>
+    have h1 : c ≠ sep := fun e => h (by simp [e])
+    have h2 : sep ∉ cs := fun e => h (by simp [e])
+    simp only [List.cons_append]
+    rw [splitOn, ih h2]
+    simp [h1]
+
+/-- an all-digits string is not a dotted quad -/
+theorem isDigit_false_of_ipv4 (s : Name) (o : List Nat) (h : parseIPv4 s = some o) : isDigit s = false := by
+  cases hd : isDigit s with
+  | false => rfl
+  | true =>
+    exfalso
+    have hall : ∀ c ∈ s, isDigitC c = true := by
+      simp [isDigit, List.all_eq_true] at hd
+      exact hd.2
+    have hn : 46 ∉ s := fun hm => by
+      have := hall 46 hm
+      simp [isDigitC] at this
+    simp [parseIPv4, splitOn_notin 46 s hn] at h
+
+/-! ### one hop -/
+
+theorem table_aliases_nonnumeric : ∀ e ∈ Gen.portSegments, isDigit e.1 = false := by decide
+
+theorem lookupName_mem {α} (k : Name) (v : α) (t : List (Name × α)) (h : lookupName k t = some v) :
+    (k, v) ∈ t := by
+  induction t with
+  | nil => simp [lookupName] at h
+  | cons e t ih =>
+    obtain ⟨k', v'⟩ := e
+    simp only [lookupName] at h
+    split at h
+    · rename_i hk
+      simp at h
+      simp [hk, h]
+    · simp [ih h]
+
+theorem alias_not_digit (p : Name) (n : Nat) (h : lookupName p Gen.portSegments = some n) :
+    isDigit p = false :=
+  table_aliases_nonnumeric (p, n) (lookupName_mem p n _ h)
+
+theorem or16 : ∀ p, p ≤ 14 → p ||| 16 = p + 16 := by decide
+
+theorem encPort_int_hop (h : Hop) (hw : WfHop h) :
+    encPort (.int h.port) (.str (linkText h.link)) = .ok (refHop h) := by
+  obtain ⟨port, link⟩ := h
+  obtain ⟨hp1, hp2, hl⟩ := hw
+  simp only at hp1 hp2 hl
+  have hport := usint_ok port (by omega)
+  cases link with
+  | slot n =>
+    simp only at hl
+    simp [encPort, linkText, decStr_isDigit, decStr_val, usint_ok n hl, hport, refHop]
+  | ip s =>
+    simp only at hl
+    obtain ⟨⟨o, ho⟩, hlen1, hlen2, _⟩ := hl
+    have hd := isDigit_false_of_ipv4 s o ho
+    have hport16 := usint_ok (port + 16) (by omega)
+    have hlen := usint_ok s.length hlen2
+    have hnn : (0:Int) ≤ (port : Int) := Int.natCast_nonneg _
+    simp at hport16
+    simp [encPort, linkText, hd, ho, hlen1, hnn, Gen.PORT_EXTENDED_LINK, or16 port hp2, hlen, refHop, hport16]
+
+theorem encPort_name_hop (h : Hop) (hw : WfHop h) (p : Name)
+    (hp : lookupName p Gen.portSegments = some h.port) :
+    encPort (.name p) (.str (linkText h.link)) = .ok (refHop h) := by
+  rw [← encPort_int_hop h hw]
+  simp [encPort, hp]
+
+
+/-! ### whole routes -/
+
+theorem spells_length : ∀ (hops : List Hop) (segs : List Name), Spells hops segs → segs.length = 2 * hops.length
+  | [], [], _ => rfl
+  | [], _ :: _, h => by simp [Spells] at h
+  | _ :: _, [], h => by simp [Spells] at h
+  | _ :: _, [_], h => by simp [Spells] at h
+  | _ :: hs, _ :: _ :: rest, h => by
+    simp only [Spells] at h
+    have := spells_length hs rest h.2.2
+    simp [this]; omega
+
+theorem parseCipRouteList_even (segs : List Name) (h : segs.length % 2 = 0) :
+    parseCipRouteList segs false = .ok (parseCipRouteList.pairs segs) := by
+  cases segs with
+  | nil => simp [parseCipRouteList, parseCipRouteList.pairs]
+  | cons a t =>
+    have h' : (t.length + 1) % 2 = 0 := by simpa using h
+    simp [parseCipRouteList, h']
+
+theorem encSeg_spelled (h : Hop) (hw : WfHop h) (p : Name) (hp : PortSpelling h p) :
+    encSeg true (Seg.port (if isDigit p then .int (decVal p) else .name p) (.str (linkText h.link))) =
+      .ok (refHop h) := by
+  rcases hp with hp | hp
+  · subst hp
+    simp [decStr_isDigit, decStr_val, encSeg, encPort_int_hop h hw]
+  · simp [alias_not_digit p h.port hp, encSeg, encPort_name_hop h hw p hp]
+
+theorem encSegs_spelled : ∀ (hops : List Hop) (segs : List Name), (∀ h ∈ hops, WfHop h) → Spells hops segs →
+    encSegs true (parseCipRouteList.pairs segs) = .ok (hops.map refHop).flatten
+  | [], [], _, _ => rfl
+  | [], _ :: _, _, h => by simp [Spells] at h
+  | _ :: _, [], _, h => by simp [Spells] at h
+  | _ :: _, [_], _, h => by simp [Spells] at h
+  | h :: hs, p :: l :: rest, hw, hsp => by
+    simp only [Spells] at hsp
+    obtain ⟨hp, hl, hrest⟩ := hsp
+    subst hl
+    have ih := encSegs_spelled hs rest (fun x hx => hw x (by simp [hx])) hrest
+    have h1 := encSeg_spelled h (hw h (by simp)) p hp
+    simp [parseCipRouteList.pairs, encSegs, h1, ih, bind, Except.bind]
+
+
+/-! ### separators -/
+
+/-- both separator replacements of `parse_connection_path` -/
+def normSep (s : Name) : Name := replaceC 44 47 (replaceC 92 47 s)
+
+theorem normSep_append (a b : Name) : normSep (a ++ b) = normSep a ++ normSep b := by
+  simp [normSep, replaceC]
+
+theorem normSep_cons (c : Nat) (b : Name) : normSep (c :: b) = normSep [c] ++ normSep b := by
+  simp [normSep, replaceC]
+
+theorem normSep_id (a : Name) (h1 : 92 ∉ a) (h2 : 44 ∉ a) : normSep a = a := by
+  induction a with
+  | nil => rfl
+  | cons c cs ih =>
+    have c1 : c ≠ 92 := fun e => h1 (by simp [e])
+    have c2 : c ≠ 44 := fun e => h2 (by simp [e])
+    have i1 : 92 ∉ cs := fun e => h1 (by simp [e])
+    have i2 : 44 ∉ cs := fun e => h2 (by simp [e])
+    have := ih i1 i2
+    simp [normSep, replaceC] at this ⊢
+    simp [c1, c2, this]
+
+theorem normSep_sep (c : Nat) (hc : c = 47 ∨ c = 92 ∨ c = 44) : normSep [c] = [47] := by
+  rcases hc with h | h | h <;> subst h <;> decide
+
+theorem normSep_joined : ∀ (seps : List Nat) (route : List Name),
+    (∀ c ∈ seps, c = 47 ∨ c = 92 ∨ c = 44) → seps.length = route.length →
+    (∀ r ∈ route, 47 ∉ r ∧ 92 ∉ r ∧ 44 ∉ r) →
+    normSep ((seps.zip route).map fun p => p.1 :: p.2).flatten = (route.map fun r => 47 :: r).flatten
+  | [], [], _, _, _ => rfl
+  | [], _ :: _, _, h, _ => by simp at h
+  | _ :: _, [], _, h, _ => by simp at h
+  | c :: seps, r :: route, hs, hl, hr => by
+    have ih := normSep_joined seps route (fun x hx => hs x (by simp [hx])) (by simpa using hl)
+      (fun x hx => hr x (by simp [hx]))
+    have hr0 := hr r (by simp)
+    simp only [List.zip_cons_cons, List.map_cons, List.flatten_cons, List.cons_append]
+    rw [normSep_cons, normSep_append, ih, normSep_sep c (hs c (by simp)), normSep_id r hr0.2.1 hr0.2.2]
+    rfl
+
+theorem splitOn_joined : ∀ (route : List Name) (host : Name), 47 ∉ host → (∀ r ∈ route, 47 ∉ r) →
+    splitOn 47 (host ++ (route.map fun r => 47 :: r).flatten) = host :: route
+  | [], host, hh, _ => by simp [splitOn_notin 47 host hh]
+  | r :: route, host, hh, hr => by
+    have ih := splitOn_joined route r (hr r (by simp)) (fun x hx => hr x (by simp [hx]))
+    simp only [List.map_cons, List.flatten_cons, List.cons_append]
+    rw [splitOn_append 47 host _ hh, ih]
+
+/-- the path string is split into the host part and exactly the route pieces -/
+theorem split_path (host : Name) (route : List Name) (seps : List Nat)
+    (hh : 47 ∉ host ∧ 92 ∉ host ∧ 44 ∉ host)
+    (hr : ∀ r ∈ route, 47 ∉ r ∧ 92 ∉ r ∧ 44 ∉ r)
+    (hseps : ∀ c ∈ seps, c = 47 ∨ c = 92 ∨ c = 44) (hlen : seps.length = route.length) :
+    PyStr.split 47 (PyStr.replaceC 44 47 (PyStr.replaceC 92 47
+      (host ++ ((seps.zip route).map fun p => p.1 :: p.2).flatten))) = host :: route := by
+  show splitOn 47 (normSep _) = _
+  rw [normSep_append, normSep_id host hh.2.1 hh.2.2, normSep_joined seps route hseps hlen hr]
+  exact splitOn_joined route host hh.1 (fun r h => (hr r h).1)
+
+
+/-! ### size of a route: a dotted quad has at most 15 characters, so a hop has at most 18 bytes and
+    28 hops always fit the one-byte word count -/
+
+theorem splitOn_length_sum (sep : Nat) (s : List Nat) :
+    ((splitOn sep s).map List.length).sum + (splitOn sep s).length = s.length + 1 := by
+  induction s with
+  | nil => rfl
+  | cons c cs ih =>
+    rw [splitOn]
+    cases hsp : splitOn sep cs with
+    | nil => exact absurd hsp (splitOn_ne_nil sep cs)
+    | cons x t =>
+      rw [hsp] at ih
+      by_cases hc : c = sep
+      · simp [hc] at ih ⊢; omega
+      · simp [hc] at ih ⊢; omega
+
+theorem parseOctet_length (cs : List Nat) (v : Nat) (h : parseOctet cs = some v) : cs.length ≤ 3 := by
+  unfold parseOctet at h
+  split at h
+  · simp at h
+  · rename_i h1
+    simp at h1
+    omega
+
+theorem ipv4_length (s : Name) (o : List Nat) (h : parseIPv4 s = some o) : s.length ≤ 15 := by
+  unfold parseIPv4 at h
+  simp only at h
+  split at h
+  · rename_i h4
+    have hsum := splitOn_length_sum 46 s
+    match hp : splitOn 46 s, h4 with
+    | [a, b, c, d], _ =>
+      rw [hp] at h hsum
+      cases ha : parseOctet a with
+      | none => simp [ha] at h
+      | some va =>
+      cases hb : parseOctet b with
+      | none => simp [ha, hb] at h
+      | some vb =>
+      cases hc : parseOctet c with
+      | none => simp [ha, hb, hc] at h
+      | some vc =>
+      cases hd : parseOctet d with
+      | none => simp [ha, hb, hc, hd] at h
+      | some vd =>
+        have := parseOctet_length a va ha
+        have := parseOctet_length b vb hb
+        have := parseOctet_length c vc hc
+        have := parseOctet_length d vd hd
+        simp at hsum
+        omega
+  · simp at h
+
+theorem refHop_length (h : Hop) (hw : WfHop h) : (refHop h).length ≤ 18 := by
+  obtain ⟨port, link⟩ := h
+  obtain ⟨_, _, hl⟩ := hw
+  cases link with
+  | slot n => simp [refHop]
+  | ip s =>
+    simp only at hl
+    obtain ⟨⟨o, ho⟩, _⟩ := hl
+    have := ipv4_length s o ho
+    simp only [refHop]
+    split <;> simp <;> omega
+
+theorem route_length (hops : List Hop) (hw : ∀ h ∈ hops, WfHop h) :
+    (hops.map refHop).flatten.length ≤ 18 * hops.length := by
+  induction hops with
+  | nil => simp
+  | cons h hs ih =>
+    have h1 := refHop_length h (hw h (by simp))
+    have h2 := ih (fun x hx => hw x (by simp [hx]))
+    simp only [List.map_cons, List.flatten_cons, List.length_append, List.length_cons]
+    omega
+
+/-- the size hypothesis of `route_of_spelling` holds for every well-formed route of at most 28 hops -/
+theorem route_words_le (hops : List Hop) (hw : ∀ h ∈ hops, WfHop h) (hn : hops.length ≤ 28) :
+    (hops.map refHop).flatten.length / 2 ≤ 255 := by
+  have := route_length hops hw
+  omega
+
 -- PROPERTY THEOREMS
 
 /-- every spelling (alias or number per port) of a well-formed route yields segments whose encoding is
     the CIP route of the hops: in particular all spellings give identical route bytes -/
+-- STATEMENT CHANGED: the size hypothesis was `hn : hops.length ≤ 60`, which is false as stated: the
+-- EPATH length prefix is one byte counting 16-bit words, and a hop with an IPv4 link takes up to 18
+-- bytes, so e.g. 60 (even 29) hops "2/100.100.100.100" give 540 (261) words > 255 and
+-- `encEpath .. true false` is `.error .data` (USINT overflow).  `hn` is now the exact condition
+-- "the route body has at most 255 words".  `route_words_le` (above) shows it holds for every
+-- well-formed route of at most 28 hops, and it holds for 60 hops when all links are slot numbers.
 theorem route_of_spelling (hops : List Hop) (segs : List Name) (hw : ∀ h ∈ hops, WfHop h)
-    (hs : Spells hops segs) (hn : hops.length ≤ 60) :
+    (hs : Spells hops segs) (hn : (hops.map refHop).flatten.length / 2 ≤ 255) :
     ∃ route, parseCipRouteList segs false = .ok route ∧ encEpath true route true false = .ok (refRoute hops) := by
-  sorry
+  refine ⟨parseCipRouteList.pairs segs, parseCipRouteList_even segs ?_, ?_⟩
+  · rw [spells_length hops segs hs]; omega
+  · have hu := usint_ok _ hn
+    have hb := encSegs_spelled hops segs hw hs
+    simp only [refRoute]
+    generalize (hops.map refHop).flatten = body at hu hb ⊢
+    have hc : ((body.length : Int) / 2) = ((body.length / 2 : Nat) : Int) := by omega
+    simp only [encEpath, hb, if_true, hc, hu]
+    simp
 
 /-- the shortcuts of the Logix/SLC drivers: bare address = backplane slot 0, address/slot = backplane slot -/
 theorem shortcut_bare : parseCipRouteList [] true = .ok [Seg.port (.name (nm "bp")) (.int 0)] ∧
     encEpath true [Seg.port (.name (nm "bp")) (.int 0)] true false = .ok (refRoute [⟨1, .slot 0⟩]) := by
-  sorry
+  constructor
+  · rfl
+  · have h0 := usint_ok 0 (by omega)
+    have h1 := usint_ok 1 (by omega)
+    simp at h0 h1
+    simp [encEpath, encSegs, encSeg, encPort, lookup_bp, h0, h1, bind, Except.bind, refRoute, refHop]
 
 theorem shortcut_slot (n : Nat) (hn : n ≤ 255) :
     parseCipRouteList [decStr n] true = .ok [Seg.port (.name (nm "bp")) (.str (decStr n))] ∧
     encEpath true [Seg.port (.name (nm "bp")) (.str (decStr n))] true false = .ok (refRoute [⟨1, .slot n⟩]) := by
-  sorry
+  constructor
+  · simp [parseCipRouteList]
+  · have h1 := usint_ok 1 (by omega)
+    have h2 := usint_ok n hn
+    simp at h1
+    simp [encEpath, encSegs, encSeg, encPort, lookup_bp, decStr_isDigit, decStr_val, h1, h2, bind, Except.bind,
+      refRoute, refHop]
 
 /-- an odd number of route segments is rejected with RequestError (whatever the segments are) -/
 theorem odd_segments_rejected (segs : List Name) (auto : Bool) (h : segs.length % 2 = 1)
     (h1 : segs.length ≠ 1 ∨ auto = false) : parseCipRouteList segs auto = .error .request := by
-  sorry
+  have hne : segs.isEmpty = false := by
+    cases segs with
+    | nil => simp at h
+    | cons a t => rfl
+  have h2 : (segs.length == 1 && auto) = false := by
+    rcases h1 with h1 | h1
+    · simp [h1]
+    · simp [h1]
+  simp [parseCipRouteList, hne, h2, h]
 
 /-- an unknown port name makes the route unencodable (DataError), wherever it occurs in the route -/
 theorem unknown_port_rejected (pre post : List Seg) (p : Name) (l : LinkVal)
     (hp : lookupName p Gen.portSegments = none) (length padLen : Bool) :
     encEpath true (pre ++ Seg.port (.name p) l :: post) length padLen = .error .data := by
-  sorry
+  apply encEpath_err (e := .data)
+  simp [encSeg, encPort, hp]
 
 /-- a link that is neither a number 0..255 nor an IPv4 address makes the route unencodable -/
 theorem bad_link_rejected (pre post : List Seg) (p : PortVal) (s : Name)
     (hs : (PyStr.isDigit s = true ∧ 255 < PyStr.decVal s) ∨ (PyStr.isDigit s = false ∧ parseIPv4 s = none))
     (length padLen : Bool) :
     encEpath true (pre ++ Seg.port p (.str s) :: post) length padLen = .error .data := by
-  sorry
+  apply encEpath_err (e := .data)
+  simp [encSeg, encPort_bad_link p s hs]
 
 /-- an invalid TCP port (not a number, 0, or ≥ 65535) is rejected with RequestError whatever follows -/
 theorem bad_tcp_port_rejected (host pt : Name) (route : List Name) (auto : Bool)
@@ -99,7 +517,18 @@ theorem bad_tcp_port_rejected (host pt : Name) (route : List Name) (auto : Bool)
     (seps : List Nat) (hseps : ∀ c ∈ seps, c = 47 ∨ c = 92 ∨ c = 44) (hlen : seps.length = route.length) :
     parseConnectionPath
       (host ++ [58] ++ pt ++ ((seps.zip route).map fun p => p.1 :: p.2).flatten) auto = .error .request := by
-  sorry
+  have hh' : 47 ∉ host ++ [58] ++ pt ∧ 92 ∉ host ++ [58] ++ pt ∧ 44 ∉ host ++ [58] ++ pt := by
+    simp [hh.2.1, hh.2.2.1, hh.2.2.2, hpt.2.1, hpt.2.2.1, hpt.2.2.2]
+  have hsp := split_path (host ++ [58] ++ pt) route seps hh' hr hseps hlen
+  have hc : (host ++ [58] ++ pt).contains 58 = true := by simp
+  have hs2 : PyStr.split 58 (host ++ [58] ++ pt) = [host, pt] := by
+    show splitOn 58 _ = _
+    rw [List.append_assoc, List.singleton_append, splitOn_append 58 host pt hh.1, splitOn_notin 58 pt hpt.1]
+  simp only [parseConnectionPath, hsp, hc, hs2]
+  rcases hbad with hb | ⟨v, hb, hv⟩
+  · simp [hb]
+  · have hv' : v ≤ 0 ∨ v ≥ 65535 := hv
+    simp [hb, hv']
 
 /-- the three separators are interchangeable: a path string whose pieces are joined by any mix of
     '/', '\' and ',' is split into exactly those pieces -/
@@ -111,6 +540,9 @@ theorem separators_interchangeable (host : Name) (route : List Name) (auto : Boo
       (match parseCipRouteList route auto with
        | .ok segs => .ok (host, none, segs)
        | .error e => .error e) := by
-  sorry
+  have hsp := split_path host route seps hh.2 hr hseps hlen
+  have hc : host.contains 58 = false := by simp [hh.1]
+  simp only [parseConnectionPath, hsp, hc]
+  cases parseCipRouteList route auto <;> simp
 
 end Pycomm.Path
